@@ -10,14 +10,14 @@ cd $W/wt
 for d in /verif/seeded/*/; do
   id=$(basename $d)
   [ -n "${1:-}" ] && [[ "$id" != $1 ]] && continue
-  git checkout -q -- . ; git clean -fdq -- tests src
+  git reset -q --hard; git clean -fdq -- tests src
   applies=false; suite=""; demo_with=""; demo_without=""
-  if git apply --check $d/patch.diff 2>/dev/null; then applies=true; fi
+  if git apply --check $d/patch.diff 2>/dev/null || git apply --3way --check $d/patch.diff 2>/dev/null; then applies=true; fi
   if $applies; then
     # demo without the change
     cp $d/demo.rs tests/seed_demo.rs
     timeout 900 cargo test --offline --test seed_demo > $W/log_without.txt 2>&1; demo_without=$?
-    git apply $d/patch.diff
+    git apply $d/patch.diff 2>/dev/null || git apply --3way $d/patch.diff >/dev/null 2>&1
     timeout 900 cargo test --offline --test seed_demo > $W/log_with.txt 2>&1; demo_with=$?
     rm -f tests/seed_demo.rs
     timeout 1200 cargo test --workspace --no-fail-fast --offline > $W/log_suite.txt 2>&1; suite=$?
